@@ -589,7 +589,7 @@ func c09HookUnknown(c *mon.Ctx) {
 	c.Count("hook_and_unknown_value_scenarios")
 }
 
-func bexprBudget() bexpr.Option { return bexpr.WithMaxExpressions(1 << 24) }
+func bexprBudget() bexpr.Option { return bexpr.WithMaxExpressions(1 << 28) }
 
 func init() {
 	mon.Register(&mon.Prop{
